@@ -92,6 +92,25 @@ Definition scommit (do_deletes : bool) (s : scratch) : scratch * option exn :=
 (* exit by exception *)
 Definition sabort (s : scratch) : scratch := mkScratch (wrapped s) [].
 
+(* A ScratchDB whose wrapped database is itself a ScratchDB (a batch opened inside a batch).
+   [read_view s]: what reads THROUGH the layer s see — the wrapped cells overlaid by the buffered
+   writes (a DELETED marker reads through to the wrapped value).  The inner layer is modelled as
+   a scratch over [store_of (read_view s)].
+   [sreplay]: the else-branch of batch_commit when the wrapped database is the layer s: buffered
+   writes become writes into s's buffer, buffered deletes become DELETED markers in it (after
+   the repair of D4: `del wrapped[key]`; ScratchDB has no pop()); nothing can fail. *)
+Definition read_view (s : scratch) : amap bytes :=
+  fold_left (fun (acc : amap bytes) (e : bytes * option bytes) =>
+               match snd e with Some v => aset acc (fst e) v | None => acc end)
+            (cache s) (cells (wrapped s)).
+
+Fixpoint sreplay (do_deletes : bool) (c : amap (option bytes)) (s : scratch) : scratch :=
+  match c with
+  | [] => s
+  | (k, Some v) :: c' => sreplay do_deletes c' (sset s k v)
+  | (k, None) :: c' => if do_deletes then sreplay do_deletes c' (sdel s k) else sreplay do_deletes c' s
+  end.
+
 (* ------------------------------------------------------------------ *)
 (* The state machine used by property C17 and its correspondence check *)
 Inductive sop :=
